@@ -5,8 +5,10 @@ cd "$(dirname "$0")"
 export PATH="$PATH:/opt/veriftools/lean/bin"
 export GOFLAGS=-mod=mod GOPROXY=off GOSUMDB=off GOTOOLCHAIN=local
 mkdir -p .work/bin lean/Vflow/Gen
-cp /repo/go.sum go/go.sum
+REPO=${VERIF_REPO:-/repo}
+cp $REPO/go.sum go/go.sum
+sed -i "s#^replace github.com/EdgeCast/vflow => .*#replace github.com/EdgeCast/vflow => $REPO#" go/go.mod
 (cd go && go build -o ../.work/bin/factgen ./cmd/factgen && go build -tags verif -o ../.work/bin/corr ./cmd/corr)
-.work/bin/factgen /repo lean/Vflow/Gen
+.work/bin/factgen $REPO lean/Vflow/Gen
 (cd lean && lake build Vflow vfmodel 2>&1 | grep -v '^✔' | tail -20)
 echo setup done
